@@ -215,6 +215,22 @@ func c06EngineAccepts(face engine.Face, pad bool, fn gadget.Fn, v *big.Int, isGL
 	if res.Verdict == engine.Inconclusive {
 		return false, res.Msg, true
 	}
+	if pad && res.Verdict == engine.Reject {
+		// the same check as the LAST collected one (padding first)
+		r2 := harnRunCommitPaddedFirst(engine.Options{Face: engine.Commit}, func(api frontend.API) { fn(api, []frontend.Variable{v}) }, gadget.PadCommit)
+		o.Events += events(r2)
+		if r2.Verdict == engine.Accept {
+			return true, "accepted when the check is the last one collected", false
+		}
+		if isGL {
+			for i, cand := range c06LimbCandidates(v) {
+				r3 := harnRunCommitPaddedFirst(engine.Options{Face: engine.Commit, Policy: limbPolicy{v, cand}}, func(api frontend.API) { fn(api, []frontend.Variable{v}) }, gadget.PadCommit)
+				if r3.Verdict == engine.Accept {
+					return true, fmt.Sprintf("limb candidate %d accepted when the check is the last one collected", i), false
+				}
+			}
+		}
+	}
 	if res.Verdict == engine.Accept {
 		return true, "honest", false
 	}
@@ -273,6 +289,19 @@ func harnRunCommitPaddedOpt(opt engine.Options, fn func(api frontend.API), pad i
 		for i := 0; i < pad; i++ {
 			chip.RangeCheckWithMaxBits(gl.NewVariable(0), 32)
 		}
+		return nil
+	})
+}
+
+// harnRunCommitPaddedFirst pads BEFORE the gadget, so the gadget's checks are the last
+// ones the chip collects.
+func harnRunCommitPaddedFirst(opt engine.Options, fn func(api frontend.API), pad int) engine.Result {
+	return harnRunOpt(opt, func(api frontend.API) error {
+		chip := gl.New(api)
+		for i := 0; i < pad; i++ {
+			chip.RangeCheckWithMaxBits(gl.NewVariable(0), 32)
+		}
+		fn(api)
 		return nil
 	})
 }
